@@ -636,8 +636,10 @@ _now("C07",
      "literal_variable_equiv_refuted_cross_kind / rejects_cross_kind_refuted are the machine-checked witnesses of finding A8 (lenient built-in parsers, "
      "pinned by the suite). The history stream has a DETERMINISTIC derivation probe (det_probe: fixed clone / extend / camel-case / visibility plans on a "
      "fixed schema with enums keyed by internal value, python-named input fields and defaults; fixed requests through every derived schema).",
-     "Only exercised, not modelled: the schema-derivation operations themselves (C14's model), resolver memoisation per (field definition, node). Code-first "
-     "input-object defaults are compared as declared (see the C07 entry of DESIGN.md section 5 for the nested-default residue).",
+     "Only exercised, not modelled: the schema-derivation operations themselves (C14's model), resolver memoisation per (field definition, node). Declared "
+     "defaults are handed over as declared: RegOK.defaultsConform is a premise (established by SDL-built schemas); for code-first schemas only DeclaredOK "
+     "holds and the statement is refuted (defaults_filled_statement_refuted, known finding A11). Named probe default-shapes: A11, T14 (C14's finding at "
+     "the resolver), A12 (scalar implemented by a visitor: proposed fix C07-A12). A refused derivation of the deterministic probe is a reported failure.",
      "Lean 4 proof (coercion soundness, per-type route equivalence, never-raises, before-resolver trace over response trees) + source-translated scalar "
      "branches + resolver-kwargs correspondence incl. derived schemas")
 _now("C10",
@@ -647,8 +649,11 @@ _now("C10",
      "extensions_passed_through / no_extensions_invented (resolver-supplied extensions reach the response unchanged and nothing else produces the key), "
      "only_lf_cr_end_lines (index_to_loc starts a line at LF, CR, CRLF only: the deterministic `linechars` class sends every other Unicode line "
      "separator in front of an error position).",
-     "StagesOk / StagesTyped are hypotheses about the outcomes of the other stages (positions of error nodes inside the text, exception classes); "
-     "see the obligations list for what is discharged from the stage models.")
+     "response_wellformed_pipeline (Props/C10_stages.lean) builds the stage record from the models: parse stage = C01's parseTextE on the text "
+     "(StagesOk.parse discharged), executed stage = the executor model (executed_stage_ok, executed_errors_are_resolver_errors), StagesTyped is a "
+     "theorem (stages_typed). Left as hypothesis LaterOk: the nodes of validation / variable-coercion / root-collection errors start at tokens of "
+     "the text (C06's model records the reporting rule, not the nodes; checked on the real errors of every text request, corr:stage-hypothesis:*) "
+     "and treeOkFields (user code: strict leaves and extensions).")
 _now("C15",
      "model files Introspect.lean / IntrospectPrims.lean (+ Generated/Introspection.lean), specification Spec/Introspect.lean (decoder "
      "schemaOfIntrospection, observable normal form norm). Exactness theorems next to introspect_lossless: interface_possible_types_exact / "
@@ -657,5 +662,6 @@ _now("C15",
      "String / ID default reads back IFF it has no control character other than TAB / LF / CR: the exact boundary of finding I1's residue). "
      "Deterministic class eq-colliding: defaults and enum internal values 1 / True / 1.0 / 0 / False / 0.0 on one JSON-like scalar and one enum, "
      "two schemas sharing the type objects, introspected in one process with a type-strict round-trip oracle.",
-     "Known findings I5 (VARIABLE_DEFINITION is not a member of __DirectiveLocation), I10. The decoder reads possibleTypes into the description for "
-     "unions only (interfaces: separate theorems).")
+     "Known findings I5 (VARIABLE_DEFINITION is not a member of __DirectiveLocation), I10, T14 (C14's finding seen through introspection: oracle "
+     "derived-defaults). introspect_lossless_end_to_end: Spec.decodeAll reads every entry (possibleTypes of interfaces included) and equals "
+     "(norm s, implementers s) within the TypeRef depth of the standard query; checked on the REAL answer on every run.")
